@@ -227,7 +227,16 @@ func (c *Client) handlePacket(pktx pkts.Packet) error {
 
 	// Broker PUBLISH QoS 2 transaction.
 	case *pkts1.Pubrel:
-		transactionx, _ := c.transactions.Get(pkt.MessageID())
+		transactionx, hasTransaction := c.transactions.Get(pkt.MessageID())
+		if !hasTransaction {
+			// PUBREL for a transaction which is already complete: the
+			// gateway has not received our PUBCOMP and resends PUBREL.
+			// It must be answered, otherwise the gateway (and the MQTT
+			// broker) can never finish the exchange.
+			pubcomp := pkts1.NewPubcomp()
+			pubcomp.CopyMessageID(pkt)
+			return c.send(pubcomp)
+		}
 		transaction, ok := transactionx.(*brokerPublishQOS2Transaction)
 		if !ok {
 			c.log.Error("Unexpected transaction type %T for packet: %v", transactionx, pkt)
